@@ -65,8 +65,13 @@ RULES = {
     "R16": "a field is written whenever it is present: in the serializer, a statement that writes from `<source>.A` sits under presence "
     "tests of `<source>.A` only - a truthiness / `is not None` test of another attribute `<source>.B` around it makes the write of A "
     "depend on B, so an object with A set and B empty (an overload on a node of the default domain) loses A in the proto",
+    "R17": "a value is annotated once: in the graph serializer, the loops that emit a quantization annotation per value (graph inputs, "
+    "initializers, node outputs, graph outputs) range over collections that can share values - every later loop guards its emission by "
+    "the collections of the earlier ones (a membership test in a set built from them, or the value's own graph-output flag), and the "
+    "loop over the outputs also records what it emits (an output can be listed twice); node outputs are disjoint from inputs and "
+    "initializers by the IR's invariants (C01-R4)",
 }
-FLOORS = {"R1": 100, "R2": 40, "R3": 30, "R4": 1, "R5": 40, "R6": 20, "R7": 6, "R8": 3, "R9": 3, "R10": 10, "R11": 1, "R12": 12, "R13": 2, "R14": 10, "R15": 4, "R16": 20}
+FLOORS = {"R1": 100, "R2": 40, "R3": 30, "R4": 1, "R5": 40, "R6": 20, "R7": 6, "R8": 3, "R9": 3, "R10": 10, "R11": 1, "R12": 12, "R13": 2, "R14": 10, "R15": 4, "R16": 20, "R17": 4}
 EXPLANATION = (
     "Types every proto expression of serde.py through parameter annotations and the parsed onnx-ml.proto schema, "
     "collects per message the fields the deserializer reads and the serializer writes (attribute access, HasField, "
@@ -1070,7 +1075,151 @@ def rule_r16(ctx):
     ctx.require(n >= 20, f"only {n} presence-guarded writes found in the serializer")
 
 
+def rule_r17(ctx):
+    f = ctx.repo.func(f"{SERDE}:serialize_graph_into")
+    src = f.params[1] if len(f.params) > 1 else "from_"
+    # emitters: module functions that add to <proto>.quantization_annotation
+    emitters = {g.name for g in ctx.repo.module(SERDE).all_funcs if not isinstance(g.node, ast.Lambda) and any(
+        isinstance(c.func, ast.Attribute) and c.func.attr == "add" and norm(c.func.value).endswith(".quantization_annotation") for c in calls_in(g))}
+    ctx.require(bool(emitters), "no function adds to <graph proto>.quantization_annotation")
+
+    def coll_of(lp):
+        """The collection of the graph a top-level loop ranges over: inputs / initializers / nodes / outputs."""
+        for x in ast.walk(lp.iter):
+            if isinstance(x, ast.Attribute) and isinstance(x.value, ast.Name) and x.value.id == src and x.attr in ("inputs", "initializers", "outputs"):
+                return x.attr
+        if isinstance(lp.iter, ast.Name) and lp.iter.id == src:
+            return "nodes"
+        return None
+
+    # what each local is derived from (collections of the graph), to a fixpoint
+    derived: dict[str, set[str]] = {}
+    for _ in range(4):
+        for n in own_nodes(f.node):
+            if isinstance(n, ast.Assign) and len(n.targets) == 1 and isinstance(n.targets[0], ast.Name):
+                d = set()
+                for x in ast.walk(n.value):
+                    if isinstance(x, ast.Attribute) and isinstance(x.value, ast.Name) and x.value.id == src and x.attr in ("inputs", "initializers", "outputs"):
+                        d.add(x.attr)
+                    if isinstance(x, ast.Name) and x.id in derived:
+                        d |= derived[x.id]
+                if d:
+                    derived.setdefault(n.targets[0].id, set()).update(d)
+            # … and what is merged into it later: X.update(E) / X |= E
+            tgt = val = None
+            if isinstance(n, ast.Call) and isinstance(n.func, ast.Attribute) and n.func.attr in ("update", "extend") and isinstance(n.func.value, ast.Name) and n.args:
+                tgt, val = n.func.value.id, n.args[0]
+            elif isinstance(n, ast.AugAssign) and isinstance(n.target, ast.Name):
+                tgt, val = n.target.id, n.value
+            if tgt is not None:
+                d = set()
+                for x in ast.walk(val):
+                    if isinstance(x, ast.Attribute) and isinstance(x.value, ast.Name) and x.value.id == src and x.attr in ("inputs", "initializers", "outputs"):
+                        d.add(x.attr)
+                    if isinstance(x, ast.Name) and x.id in derived:
+                        d |= derived[x.id]
+                if d:
+                    derived.setdefault(tgt, set()).update(d)
+    loops = [lp for lp in f.node.body if isinstance(lp, ast.For) and coll_of(lp) is not None
+             and any(_emits(c, emitters) for c in ast.walk(lp))]
+    ctx.require(len(loops) >= 4, f"serialize_graph_into: only {len(loops)} loops emit quantization annotations (inputs, initializers, node outputs, outputs expected)")
+    structurally_disjoint = {frozenset(("nodes", "inputs")), frozenset(("nodes", "initializers"))}
+    for j, lp in enumerate(loops):
+        mine = coll_of(lp)
+        call = next(c for c in ast.walk(lp) if _emits(c, emitters))
+        # what guards the emission inside this loop: tests of enclosing ifs and of earlier `if …: continue`
+        tests = []
+        p_ = getattr(call, "_parent", None)
+        while p_ is not None and p_ is not lp:
+            if isinstance(p_, ast.If):
+                tests.append(p_.test)
+            p_ = getattr(p_, "_parent", None)
+        tests += _earlier_continue_tests(lp, call)
+        mentioned: set[str] = set()
+        guard_names: set[str] = set()
+        for t in tests:
+            for x in ast.walk(t):
+                if isinstance(x, ast.Attribute) and isinstance(x.value, ast.Name) and x.value.id == src:
+                    mentioned.add(x.attr)
+                if isinstance(x, ast.Name) and x.id in derived:
+                    mentioned |= derived[x.id]
+                    guard_names.add(x.id)
+                if isinstance(x, ast.Call) and isinstance(x.func, ast.Attribute) and x.func.attr == "is_graph_output":
+                    mentioned.add("outputs")
+                if isinstance(x, ast.Call) and isinstance(x.func, ast.Attribute) and x.func.attr == "is_graph_input":
+                    mentioned.add("inputs")
+                if isinstance(x, ast.Call) and isinstance(x.func, ast.Attribute) and x.func.attr == "is_initializer":
+                    mentioned.add("initializers")
+        others = [coll_of(o) for k, o in enumerate(loops) if k != j]
+        for other in dict.fromkeys(others):
+            if other == mine or frozenset((mine, other)) in structurally_disjoint:
+                continue
+            # the pair is covered when either of the two loops guards against the other's collection
+            lp_o = next(o for o in loops if coll_of(o) == other)
+            covered = other in mentioned or _guards_against(lp_o, mine, src, derived, emitters)
+            if loops.index(lp_o) < j or not covered:
+                ctx.check("R17", f"serialize_graph_into: annotations of {mine} are not emitted again for values that are also {other}", covered, f, call,
+                          f"the loop over the {mine} emits a quantization annotation for every value with one, and so does the loop over the {other}: a value that is both "
+                          f"(a graph input passed through as an output, an initializer listed as an output) gets two TensorAnnotation entries of one tensor name",
+                          how="pairwise: one of the two emitting loops tests membership in (a set built from) the other's collection, or the value's own flag",
+                          construct=f"annotation emitted for {mine} and again for {other}")
+        if mine == "outputs":
+            records = any(isinstance(c, ast.Call) and isinstance(c.func, ast.Attribute) and c.func.attr == "add" and isinstance(c.func.value, ast.Name)
+                          and c.func.value.id in guard_names for c in ast.walk(lp))
+            ctx.check("R17", "serialize_graph_into: an output listed twice is annotated once", records, f, call,
+                      "the graph outputs may list one value twice (C14's OutputFixPass exists because of it); the loop over the outputs emits the annotation of such a "
+                      "value once per position",
+                      how="the set the emission is guarded by is added to inside the loop", construct="annotation emitted per output position")
+
+
+def _earlier_continue_tests(lp, call):
+    """Tests of `if …: continue` statements that precede the call in its block or in an enclosing block of the loop (by position
+    in the statement lists: expanded helpers keep the line numbers of the helper)."""
+    out = []
+    child, p_ = call, getattr(call, "_parent", None)
+    while p_ is not None:
+        for fld in ("body", "orelse"):
+            b = getattr(p_, fld, None)
+            if isinstance(b, list) and any(child is st for st in b):
+                for st in b[: next(i for i, st in enumerate(b) if st is child)]:
+                    if isinstance(st, ast.If) and any(isinstance(y, ast.Continue) for y in st.body):
+                        out.append(st.test)
+        if p_ is lp:
+            break
+        child, p_ = p_, getattr(p_, "_parent", None)
+    return out
+
+
+def _emits(c, emitters) -> bool:
+    return isinstance(c, ast.Call) and ((dotted_of(c.func) or "") in emitters or (
+        isinstance(c.func, ast.Attribute) and c.func.attr == "add" and norm(c.func.value).endswith(".quantization_annotation")))
+
+
+def _guards_against(lp, coll, src, derived, emitters) -> bool:
+    call = next((c for c in ast.walk(lp) if _emits(c, emitters)), None)
+    if call is None:
+        return False
+    tests = []
+    p_ = getattr(call, "_parent", None)
+    while p_ is not None and p_ is not lp:
+        if isinstance(p_, ast.If):
+            tests.append(p_.test)
+        p_ = getattr(p_, "_parent", None)
+    tests += _earlier_continue_tests(lp, call)
+    flag = {"outputs": "is_graph_output", "inputs": "is_graph_input", "initializers": "is_initializer"}.get(coll)
+    for t in tests:
+        for x in ast.walk(t):
+            if isinstance(x, ast.Attribute) and isinstance(x.value, ast.Name) and x.value.id == src and x.attr == coll:
+                return True
+            if isinstance(x, ast.Name) and coll in derived.get(x.id, ()):
+                return True
+            if isinstance(x, ast.Call) and isinstance(x.func, ast.Attribute) and x.func.attr == flag:
+                return True
+    return False
+
+
 def run(ctx):
+    rule_r17(ctx)
     rule_r16(ctx)
     rule_r14(ctx)
     rule_r13(ctx)
